@@ -2,6 +2,7 @@ package main
 
 import (
 	"fmt"
+	"math"
 	"math/rand"
 	"reflect"
 	"regexp"
@@ -216,6 +217,80 @@ func streamEq(o *Out, r *rand.Rand, n int, thorough bool) {
 		case nil:
 			if eq != (b == nil) {
 				o.Fail(Failure{Oracle: "nil-only-nil", Key: "nil-eq", Input: desc, Detail: fmt.Sprintf("nil == b is %v", eq)})
+			}
+		}
+	}
+	// focused string / number pairs: a string equals a number exactly when it is a DECIMAL numeral denoting it - not when it is the
+	// character with that code, not a hexadecimal float, not "inf" / "nan"; same answer in both orders and in all four forms
+	fstrs := []string{"a", " ", "+", "\n", "\u20ac", "A", "0", "7", "97", "0x1p4", "0x10", "0X1P-2", "inf", "+Inf", "-inf", "Infinity", "nan", "NaN", "1e1", "1E1", "+1", "-0", "1.", ".5", "1_0", "16", "16.0", "0b11", "0o7", "1e", "e1", "--1", "1 ", " 1", "\t1", "1\n"}
+	fnums := []interface{}{int64(97), int64(32), int64(43), int64(10), int64(8364), int64(65), int64(0), int64(7), int64(16), int64(1), int64(3), int64(-1), 16.0, 0.25, 10.0, 1.0, 0.5, 0.0, 97.0,
+		math.Inf(1), math.Inf(-1), math.NaN()}
+	for _, fs := range fstrs {
+		for _, fn := range fnums {
+			want := false
+			clean := strings.ReplaceAll(fs, "_", "")
+			if decIntRe.MatchString(fs) || decFloatRe.MatchString(fs) {
+				if f, err := strconv.ParseFloat(clean, 64); err == nil {
+					switch x := fn.(type) {
+					case int64:
+						if n, err := strconv.ParseInt(clean, 10, 64); err == nil {
+							want = n == x
+						} else {
+							want = f == float64(x)
+						}
+					case float64:
+						want = f == x
+					}
+				}
+			}
+			vars := map[string]interface{}{"s": fs, "n": fn}
+			desc := fmt.Sprintf("s=%q n=%v (%T)", fs, fn, fn)
+			for _, form := range []struct{ name, src string }{
+				{"s==n", "s == n"}, {"n==s", "n == s"}, {"!(s!=n)", "!(s != n)"}, {"!(n!=s)", "!(n != s)"}, {"s in [n]", "s in [n]"}, {"n in [s]", "n in [s]"},
+				{"switch s", "switch s {\ncase n:\ntrue\ndefault:\nfalse\n}"}, {"switch n", "switch n {\ncase s:\ntrue\ndefault:\nfalse\n}"},
+			} {
+				out := runScript(form.src, vars, nil)
+				o.Sum.Evaluations++
+				o.Sum.Hist["string-number:"+form.name]++
+				got, ok := asBool(out)
+				if !ok || got != want {
+					o.Fail(Failure{Oracle: "string-number-eq", Key: "string-number-eq:" + form.name, Input: form.src + " with " + desc,
+						Detail: fmt.Sprintf("%q is a decimal numeral denoting %v: %v, but the script says %v", fs, fn, want, out.answer(vals.Encode))})
+				}
+			}
+		}
+	}
+	// float32 operands (host values, elements of host and script-made []float32, struct fields): one relation whatever side
+	// the operand stands on and whatever form is used
+	f32setup := "m32 = make([]float32, 3)\nm32[0] = tf32[0]\nm32[1] = tf32[1]\nm32[2] = tf32[2]\n"
+	f32ops := []string{"tf32[0]", "tf32[1]", "tf32[2]", "m32[0]", "m32[1]", "f32v", "sf32.F", "1.1", "0.1", "0.5", "f64v", "1", "\"1.1\""}
+	for _, l := range f32ops {
+		for _, rr := range f32ops {
+			vars := func() map[string]interface{} {
+				return map[string]interface{}{"tf32": []float32{1.1, 0.1, 0.5}, "f32v": float32(1.1), "f64v": float64(float32(1.1)), "sf32": &struct{ F float32 }{1.1}}
+			}
+			var answers []string
+			bad := false
+			for _, form := range []string{l + " == " + rr, rr + " == " + l, "!(" + l + " != " + rr + ")", "!(" + rr + " != " + l + ")", l + " in [" + rr + "]", rr + " in [" + l + "]",
+				"switch " + l + " {\ncase " + rr + ":\ntrue\ndefault:\nfalse\n}"} {
+				out := runScript(f32setup+form, vars(), nil)
+				o.Sum.Evaluations++
+				o.Sum.Hist["float32-forms"]++
+				b, ok := asBool(out)
+				if !ok {
+					bad = true
+				}
+				answers = append(answers, fmt.Sprint(b))
+			}
+			same := true
+			for _, a := range answers {
+				if a != answers[0] {
+					same = false
+				}
+			}
+			if bad || !same {
+				o.Fail(Failure{Oracle: "eq-coherent", Key: "eq-float32-forms", Input: f32setup + l + " == " + rr + "  (tf32 = []float32{1.1, 0.1, 0.5}, f32v = float32(1.1), f64v = float64(float32(1.1)), sf32.F = float32(1.1))",
+					Detail: fmt.Sprintf("a==b, b==a, !(a!=b), !(b!=a), a in [b], b in [a], switch a {case b} give %v", answers)})
 			}
 		}
 	}
